@@ -53,6 +53,11 @@ def gen_cases(ctx: Ctx):
             nv = int(max(o + 2, rng.integers(6, 10)))
             add(interp=interp, order=int(o), nv=nv, tgrid=tgrids[int(rng.integers(len(tgrids)))],
                 system=None, keys=MIXED[:9] + list(rng.choice(MIXED[9:], size=3, replace=False)), law="power")
+    # 1b. node-based methods with an order above the number of sampled volumes (the code then uses every volume once)
+    for interp in ("lagrange", "krogh", "pchip", "akima"):
+        nv = int(rng.integers(5, 7))
+        add(interp=interp, order=int(nv + rng.integers(1, 5)), nv=nv, tgrid=tgrids[int(rng.integers(len(tgrids)))],
+            system=None, keys=MIXED[:9] + list(rng.choice(MIXED[9:], size=2, replace=False)), law="power")
     # 2. every temperature regime with the default interpolator, all 21 keys
     for tg in tgrids_lowT + tgrids:
         add(interp="lsq_poly", order=2, nv=7, tgrid=tg, system=None, keys=list(MIXED), law="quadratic")
